@@ -1014,6 +1014,28 @@ func (g *Gen) loop_(depth int) []*S {
 		}
 		s.Body = g.block(1+g.r.Intn(3), depth-1)
 		g.pop()
+		// clause variants: any of the three clauses may be empty (its work moves next to the loop)
+		switch g.r.Intn(8) {
+		case 0: // for ; cond; post  (the variable is declared before the loop, in the enclosing scope)
+			init := s.Init
+			s.Init = nil
+			g.declare(gvar{name: i, ty: TInt, ro: true})
+			return []*S{init, s}
+		case 1: // for init; ; post  (the condition becomes a guarded break at the top of the body)
+			cond := s.Cond
+			s.Cond = nil
+			s.Body = append([]*S{{K: "if", Cond: &E{K: "not", Ty: TBool, X: cond}, Then: []*S{{K: "break"}}}}, s.Body...)
+		case 2: // for init; cond;   (the increment moves to the top of the body: a continue cannot skip it)
+			post := s.Post
+			s.Post = nil
+			s.Body = append([]*S{post}, s.Body...)
+		case 3: // for ; cond;
+			init, post := s.Init, s.Post
+			s.Init, s.Post, s.Semis = nil, nil, true
+			s.Body = append([]*S{post}, s.Body...)
+			g.declare(gvar{name: i, ty: TInt, ro: true})
+			return []*S{init, s}
+		}
 		return []*S{s}
 	case 2: // while-style loop with a counter declared before it
 		k := g.fresh("k")
@@ -1269,6 +1291,9 @@ func (g *Gen) Program(id string) *Prog {
 	}
 	if g.o.NamedTypes && g.r.Intn(2) == 0 {
 		insert(g.addNamedTypesDemo())
+	}
+	if g.o.Containers && g.o.NamedTypes && g.r.Intn(2) == 0 {
+		insert(g.addAppendDemo())
 	}
 	g.prog.Funcs = append(g.prog.Funcs, &Func{Name: "Main", Body: body})
 	if g.o.Packages {
